@@ -325,33 +325,22 @@ func c04Wiring(c *Ctx, g *load.G) {
 		if !assigned {
 			r.Bad("C04-c", "G.builder."+k.Writer+":FuncIx-source", "", g.Where(w.Pos()), "FuncIx never assigned")
 		}
-		// definition: writeFunc(<p>.FuncIx, <p>.Code, ...) reachable only under <p>.FuncIx > 0 / != 0
+		// definition: writeFunc(<p>.FuncIx, <p>.Code, ...) exactly on the paths with a present node whose method is pending
 		cparam := cw.Type.Params.List[0].Names[0].Name
 		def := false
-		ast.Inspect(cw, func(n ast.Node) bool {
-			is, ok := n.(*ast.IfStmt)
-			if !ok {
-				return true
+		for _, p := range c.builderNorm().normPaths(cw) {
+			iw := p.evIndex("call", 0, func(t string) bool { return strings.HasPrefix(t, "b.writeFunc(") })
+			if iw < 0 {
+				continue
 			}
-			cond := exprStr(nil, is.Cond)
-			for _, s := range is.Body.List {
-				es, ok := s.(*ast.ExprStmt)
-				if !ok {
-					continue
-				}
-				ce, ok := es.X.(*ast.CallExpr)
-				if !ok || callName(ce) != "b.writeFunc" || len(ce.Args) != 4 {
-					continue
-				}
-				def = true
-				okc := cond == cparam+".FuncIx > 0" || cond == cparam+".FuncIx != 0"
-				oka := exprStr(nil, ce.Args[0]) == cparam+".FuncIx" && exprStr(nil, ce.Args[1]) == cparam+".Code"
-				r.Check(okc && oka, "C04-c", "G.builder."+k.CodeWriter+":definition", "", g.Where(ce.Pos()),
-					"writeFunc("+cparam+".FuncIx, "+cparam+".Code, …) under "+cond,
-					"method definition is emitted as writeFunc("+exprStr(nil, ce.Args[0])+", "+exprStr(nil, ce.Args[1])+") under `"+cond+"`")
-			}
-			return true
-		})
+			def = true
+			args := splitTop(strings.TrimSuffix(strings.TrimPrefix(p[iw].Text, "b.writeFunc("), ")"), ",")
+			okc := p.holds(cparam+".FuncIx>0") || p.holds(cparam+".FuncIx!=0")
+			oka := len(args) == 4 && args[0] == cparam+".FuncIx" && args[1] == cparam+".Code"
+			r.Check(okc && oka, "C04-c", "G.builder."+k.CodeWriter+":definition", "", g.Where(p[iw].Node.Pos()),
+				"writeFunc("+cparam+".FuncIx, "+cparam+".Code, …) for a pending method",
+				"method definition is emitted as "+abbreviate(p[iw].Text)+" under ["+strings.Join(p.facts(), " ")+"]")
+		}
 		if !def {
 			r.Bad("C04-c", "G.builder."+k.CodeWriter+":definition", "", g.Where(cw.Pos()), "no guarded writeFunc call: the method referenced by the grammar literal is never defined")
 		}
@@ -381,34 +370,11 @@ func c04Wiring(c *Ctx, g *load.G) {
 		r.Fatal("anchor builder.writeFunc not found")
 		return
 	}
-	var ranges []string
-	var fnNmDef string
-	var emits [][]string
-	ast.Inspect(wf, func(n ast.Node) bool {
-		switch x := n.(type) {
-		case *ast.RangeStmt:
-			ranges = append(ranges, exprStr(nil, x.X))
-		case *ast.AssignStmt:
-			if len(x.Lhs) == 1 && exprStr(nil, x.Lhs[0]) == "fnNm" {
-				fnNmDef = exprStr(nil, x.Rhs[0])
-			}
-		case *ast.CallExpr:
-			if callName(x) == "b.writelnf" {
-				var a []string
-				for _, e := range x.Args {
-					a = append(a, exprStr(nil, e))
-				}
-				emits = append(emits, a)
-			}
-		}
-		return true
-	})
-	funcIxParam := wf.Type.Params.List[0].Names[0].Name
-	r.Check(fnNmDef == "b.funcName("+funcIxParam+")", "C04-c", "G.builder.writeFunc:name", "", g.Where(wf.Pos()), "fnNm := b.funcName("+funcIxParam+")", "method name computed as "+fnNmDef)
-	r.Check(len(ranges) == 2 && ranges[0] == ranges[1] && strings.HasPrefix(ranges[0], "b.argsStack["), "C04-c", "G.builder.writeFunc:same-label-list", "", g.Where(wf.Pos()),
-		"parameters and stack[...] arguments both range over "+strings.Join(ranges, ","), "parameter list and argument list range over different collections: "+strings.Join(ranges, " vs "))
-	okEmit := len(emits) == 2 && len(emits[0]) == 5 && len(emits[1]) == 3 && emits[0][2] == "fnNm" && emits[1][1] == "fnNm" && emits[0][1] == "b.recvName"
-	r.Check(okEmit, "C04-c", "G.builder.writeFunc:emits-pair", "", g.Where(wf.Pos()), "on<fnNm> and call<fnNm> emitted with the same name", fmt.Sprintf("unexpected emissions %v", emits))
+	wfp := writeFuncSemantics(c)
+	r.Check(len(wfp["name"]) == 0, "C04-c", "G.builder.writeFunc:name", "", g.Where(wf.Pos()), "both pieces are named b.funcName(funcIx)", strings.Join(uniq(wfp["name"]), "; "))
+	r.Check(len(wfp["same-list"]) == 0 && len(wfp["lists"]) == 0, "C04-c", "G.builder.writeFunc:same-label-list", "", g.Where(wf.Pos()),
+		"parameters and stack[...] arguments both enumerate the innermost label scope", strings.Join(uniq(append(wfp["same-list"], wfp["lists"]...)), "; "))
+	r.Check(len(wfp["pair"]) == 0, "C04-c", "G.builder.writeFunc:emits-pair", "", g.Where(wf.Pos()), "on<fnNm> and call<fnNm> emitted with the same name", strings.Join(uniq(wfp["pair"]), "; "))
 	// exprIndex discipline and ruleName set on both passes
 	we := load.FuncDecl(bp, "builder", "writeExpr")
 	if we != nil && len(we.Body.List) > 0 {
@@ -421,6 +387,10 @@ func c04Wiring(c *Ctx, g *load.G) {
 	writersOf := func(field string) map[string][]string {
 		out := map[string][]string{}
 		for _, fd := range load.AllFuncDecls(bp) {
+			if fd.Body == nil {
+				continue
+			}
+			inl := inlineLocals(fd, nil)
 			ast.Inspect(fd, func(n ast.Node) bool {
 				switch x := n.(type) {
 				case *ast.AssignStmt:
@@ -428,7 +398,7 @@ func c04Wiring(c *Ctx, g *load.G) {
 						if exprStr(nil, l) == "b."+field {
 							rhs := "?"
 							if i < len(x.Rhs) {
-								rhs = exprStr(nil, x.Rhs[i])
+								rhs = inl(x.Rhs[i])
 							}
 							out[fd.Name.Name] = append(out[fd.Name.Name], rhs)
 						}
